@@ -102,6 +102,8 @@ def tree_files(d1, d2, f1, f3):
     fs = {"/w/src/main.py": "main", "/w/" + FILES[f1]: ("dup" if DUP else "f1"), "/w/" + DIRS[d1] + "/m.py": "f2", "/w/" + DIRS[d1] + "/" + DIRS[d2] + "/" + FILES[f3]: ("dup" if DUP else "f3"), "/x/other.py": "outside"}
     if CFG["gitignore"] is not None:
         fs["/w/.gitignore"] = CFG["gitignore"]
+    # two hidden directories next to each other in the listing, under the root and under src (pruning must not depend on what the neighbour is)
+    fs.update({"/w/.h1/a.py": "h1", "/w/.h2/b.py": "h2", "/w/src/.h3/c.py": "h3", "/w/src/.h4/d.py": "h4"})
     return fs
 
 
@@ -169,7 +171,7 @@ def _install(fs, analysed, checked_texts):
         setp(mod, "os", fos)
         setp(mod, "Path", FP)
         setp(mod, "open", fs.open)
-        setp(mod, "get_lexer_for_filename", lambda p: _real_glff(str(p)))
+        setp(mod, "get_lexer_for_filename", lambda p, *a, **k: _real_glff(str(p), *a, **k))
     setp(scn, "relpath", fos.relpath)
     setp(scn, "calculate_checksum", lambda p: "md5:" + fs.read(str(p)))
     setp(scn, "_analyze_file", fake_analyze)
@@ -397,9 +399,11 @@ def h_walk_order(d1: int, d2: int, f3: int, rev: bool, rot: bool) -> bool:
 
 # ----------------------------------------------------------------------------------------------- C11: the exclusion SOURCES are combined (command line + .codelimit.yml + .gitignore)
 OPTS = [None, ["gen/"], ["*.min.js", "tmp"]]
-YMLS = [None, "exclude:\n  - out\n", "verbose: false\n", "exclude: [a/b, lib]\n"]
+YMLS = [None, "exclude:\n  - out\n", "verbose: false\n", "exclude: [a/b, lib]\n",
+        # order-sensitive entries: a later '!' entry re-includes what an earlier one excluded (the entries must reach the matcher in the order they were written)
+        "exclude:\n" + "".join(f"  - 'n{i}/*'\n  - '!n{i}/keep.py'\n" for i in range(1, 5))]
 GITS = [None, "venv2\n"]
-SRC_TREE = ["src/main.py", "gen/m.py", "k/x.min.js", "tmp/m.py", "out/m.py", "a/b/m.py", "a/c.py", "lib/m.py", "venv2/m.py", "tests/t.py"]
+SRC_TREE = ["src/main.py", "gen/m.py", "k/x.min.js", "tmp/m.py", "out/m.py", "a/b/m.py", "a/c.py", "lib/m.py", "venv2/m.py", "tests/t.py"] + [f"n{i}/{n}.py" for i in range(1, 5) for n in ("keep", "x")]
 
 
 @untraced
@@ -443,7 +447,14 @@ def _cli(oi, yi, gi, which):
         pats += list((yaml.safe_load(YMLS[yi]) or {}).get("exclude", []))
     if GITS[gi] is not None:
         pats += [ln for ln in GITS[gi].splitlines() if ln]
-    exp = sorted(p for p in SRC_TREE if language_of(p.rsplit("/", 1)[-1]) and not hidden(p) and not any(re.fullmatch(ref_regex(x), p) for x in pats))
+    def _excluded(p):
+        res = False
+        for x in pats:                    # gitignore semantics: the last matching entry decides; '!' re-includes
+            neg = x.startswith("!")
+            if re.fullmatch(ref_regex(x[1:] if neg else x), p):
+                res = not neg
+        return res
+    exp = sorted(p for p in SRC_TREE if language_of(p.rsplit("/", 1)[-1]) and not hidden(p) and not _excluded(p))
     if got.get("files") != exp:
         extra = sorted(set(got.get("files") or []) - set(exp))
         return [f"exclusion-source-lost:analysed {extra}" if extra else f"selection-differs: got {got.get('files')} expected {exp}"]
@@ -479,6 +490,8 @@ REAL_FILES = {
     "twice.py": "class A:\n    def __init__(self):\n" + _long(34, "        ", "") + "\n\nclass B:\n    def __init__(self):\n" + _long(36, "        ", "") + "\n",
     "bom.py": b"\xef\xbb\xbfdef bom_first(a):\n" + _long(36, "    ", "").encode() + b"    return a\n",                                   # UTF-8 with a byte-order mark, function on line 1
     "cp1251.py": b"# -*- coding: cp1251 -*-\ndef \xee\xf2\xf7\xb8\xf2(a):\n" + _long(38, "    ", "").encode() + b"    return a\n",      # PEP 263 cookie, identifier bytes that are not UTF-8
+    "ring.h": "/**\n * Ring buffer.\n * @code\n *   ring_sum(r);\n * @endcode\n */\nint ring_sum(int a) {\n" + _long(40) + "  return a;\n}\n",      # an extension several Pygments lexers claim; the text scores for another lexer
+    "[id].js": "function page(a) {\n" + _long(33) + "  return a;\n}\n",                                                                # a file name that looks like console markup
     "cmt.c": "int f(int a) {\n// only a comment\n" + "".join(f"  v{i} = {i}; /* c */\n\n" for i in range(32)) + "  return a;\n}\n",
 }
 REAL_NAMES = sorted(REAL_FILES)
@@ -503,7 +516,7 @@ def _check_real(fi, ai, quiet):
         setp(mod, "os", fos)
         setp(mod, "Path", FP)
         setp(mod, "open", fs.open)
-        setp(mod, "get_lexer_for_filename", lambda p: _real_glff(str(p)))
+        setp(mod, "get_lexer_for_filename", lambda p, *a, **k: _real_glff(str(p), *a, **k))
     import io
     import tokenize
     setp(tokenize, "_builtin_open", lambda f, mode="rb", *a, **k: io.BytesIO(fs.read(str(f), binary=True)))      # tokenize.open() is one more way to read a source file
